@@ -69,7 +69,9 @@ def _rand_res(rng):
     if rng.random() < 0.3:
         kw["partition"] = rng.choice(("p1", "p2"))
     if rng.random() < 0.4:
-        kw["extra_args"] = {k: rng.choice(("v1", "v2")) for k in rng.sample(("qos", "acct", "x"), rng.randint(1, 2))}
+        # (also keys that are spelled like the flags generated from the quantities)
+        kw["extra_args"] = {k: rng.choice(("v1", "v2")) for k in rng.sample(("qos", "acct", "x", "gres", "mem", "time",
+                                                                              "cpus-per-task", "partition"), rng.randint(1, 2))}
     return Resources(**kw)
 
 
